@@ -6,6 +6,7 @@ CONSTANTS
   MaxTexts = 3
   Flags <- QuickFlags
   Verbs <- QuickLevels
+  TextShapes <- OnePlain
   Repaired = FALSE
   Depth = 0
   SeqLevels <- QuickLevels
